@@ -388,12 +388,24 @@ class CallMixin(object):
             return self.lift(False)
         # class-based: attribute exists iff the dynamic class defines it (class attr / property / __init__ field)
         alts = []
+        missing = []
         for c in UNIVERSE.classes:
             if c in (list, tuple, dict, set):
                 continue
             if self.class_has_attr(c, name):
                 alts.append(cls_of(Val.r(v.t)) == UNIVERSE.cid(c))
-        return V(mkB(And(Val.is_R(v.t), Or(*alts))), parse_spec('bool'))
+            else:
+                missing.append(c)
+        r = Val.r(v.t)
+        dyn = z3.BoolVal(False)
+        if not name.startswith('__'):
+            h0 = z3.Select(self.init_arr(name), r)
+            if missing:
+                self.assumes.append(z3.Implies(And(r <= self.alloc0, Or(*[cls_of(r) == UNIVERSE.cid(d) for d in missing])),
+                                               h0 == ABSENT))
+            self.assumes.append(z3.Implies(r > self.alloc0, h0 == ABSENT))
+            dyn = self.load(st, r, name) != ABSENT
+        return V(mkB(And(Val.is_R(v.t), Or(Or(*alts), dyn))), parse_spec('bool'))
 
     _attr_cache = {}
 
